@@ -40,6 +40,8 @@ pub struct OracleState {
     pub final_written: BTreeSet<(usize, usize)>,
     pub observers: Vec<crate::observer::Observer>,
     pub ext_sender: Option<(SignatureSecretKey, SigningIdentity)>,
+    /// the external sender's previous entry (same credential, the key it used before a rotation), listed first
+    pub ext_sender_old: Option<SigningIdentity>,
     pub ext_proposals: BTreeSet<u64>,
     pub codec_seq: u64,
     pub c10_unused: BTreeMap<u64, Vec<String>>,
